@@ -36,6 +36,7 @@ type Server struct {
 	supportsConfiguration bool
 	payeeTemplatesCache   sync.Map // map[protocol.DocumentURI]map[string][]analyzer.PostingTemplate
 	publishMu             sync.Mutex
+	docVersions           sync.Map     // protocol.DocumentURI -> int64: number of didOpen/didChange seen for the document
 	filesGen              atomic.Int64 // grows whenever a file is known to have changed on disk (didSave)
 }
 
@@ -194,8 +195,23 @@ func (s *Server) DidOpen(ctx context.Context, params *protocol.DidOpenTextDocume
 		}
 		s.loader.InvalidateFile(path)
 	}
-	go s.publishDiagnostics(ctx, params.TextDocument.URI, params.TextDocument.Text)
+	go s.publishDiagnosticsOf(ctx, params.TextDocument.URI, params.TextDocument.Text, s.nextVersion(params.TextDocument.URI))
 	return nil
+}
+
+// nextVersion numbers the texts a document goes through. Notifications are handled one
+// after the other, so load-and-store is enough.
+func (s *Server) nextVersion(docURI protocol.DocumentURI) int64 {
+	n := s.currentVersion(docURI) + 1
+	s.docVersions.Store(docURI, n)
+	return n
+}
+
+func (s *Server) currentVersion(docURI protocol.DocumentURI) int64 {
+	if v, ok := s.docVersions.Load(docURI); ok {
+		return v.(int64)
+	}
+	return 0
 }
 
 func (s *Server) DidChange(ctx context.Context, params *protocol.DidChangeTextDocumentParams) error {
@@ -221,7 +237,7 @@ func (s *Server) DidChange(ctx context.Context, params *protocol.DidChangeTextDo
 			}
 			s.loader.InvalidateFile(path)
 		}
-		go s.publishDiagnostics(ctx, params.TextDocument.URI, content)
+		go s.publishDiagnosticsOf(ctx, params.TextDocument.URI, content, s.nextVersion(params.TextDocument.URI))
 	}
 	return nil
 }
@@ -277,6 +293,11 @@ func (s *Server) DidSave(ctx context.Context, params *protocol.DidSaveTextDocume
 }
 
 func (s *Server) publishDiagnostics(ctx context.Context, docURI protocol.DocumentURI, content string) {
+	s.publishDiagnosticsOf(ctx, docURI, content, s.currentVersion(docURI))
+}
+
+// publishDiagnosticsOf analyses the text that was version `version` of the document.
+func (s *Server) publishDiagnosticsOf(ctx context.Context, docURI protocol.DocumentURI, content string, version int64) {
 	verifhook.Point("pd.start", string(docURI))
 	defer verifhook.Point("pd.done", string(docURI))
 	if s.client == nil {
@@ -334,6 +355,11 @@ func (s *Server) publishDiagnostics(ctx context.Context, docURI protocol.Documen
 	// the client receives are always those of the latest content.
 	s.publishMu.Lock()
 	defer s.publishMu.Unlock()
+	// Compare versions, not texts: a document may return to an earlier text (undo), and
+	// the analysis of the earlier version was made in an older state of the other files.
+	if s.currentVersion(docURI) != version {
+		return
+	}
 	if current, ok := s.GetDocument(docURI); ok && current != content {
 		return
 	}
